@@ -546,8 +546,8 @@ def rule_G(ctx):
             o.features = list(self.features)
             return o
 
-    def track_of(xs):
-        t = T([O(k, P(v if v == v else 0.0, 2.0 * k, -1.0 * k)) for k, v in enumerate(xs)], 'u', 't')
+    def track_of(xs, flat=False):
+        t = T([O(k, P(v if v == v else 0.0, 2.0 * k, 0.0 if flat else -1.0 * k * k)) for k, v in enumerate(xs)], 'u', 't')
         t.call('createAnalyticalFeature', 'a', list(xs))
         return t
 
@@ -717,7 +717,7 @@ def rule_G(ctx):
             gx = [o.position.getX() for o in tr.fields['_Track__POINTS']]
             gy = [o.position.getY() for o in tr.fields['_Track__POINTS']]
             gz = [o.position.getZ() for o in tr.fields['_Track__POINTS']]
-            ys, zs = [2.0 * k for k in range(len(xs))], [-1.0 * k for k in range(len(xs))]
+            ys, zs = [2.0 * k for k in range(len(xs))], [-1.0 * k * k for k in range(len(xs))]
             Dw = len(win) // 2
             edge = lambda i: (not bnd) and (i < Dw or i >= len(xs) - Dw)
             wx = [xs[i] if edge(i) else mean_window(xs, win, i, True) for i in range(len(xs))]
@@ -725,13 +725,64 @@ def rule_G(ctx):
             if not (all(close(a, b) for a, b in zip(gx, wx)) and all(close(a, b) for a, b in zip(gy, wy)) and gz == zs):
                 found.setdefault('seq', (fs, 'filter_seq(track, kernel, [x, y]) leaves the smoothed x and y in the track it was given (and in the one it returns), z untouched',
                                          {'kernel': kern_label, 'which': tr_label, 'x': gx, 'expected x': wx, 'y': gy, 'expected y': wy, 'z': gz}))
+    # a history of calls with the default dimensions: a flat track (constant z) first, then a track whose z varies - every call
+    # filters the dimensions it was asked for, whatever was filtered before (module-level defaults are shared between calls)
+    zs_ = [-1.0 * k * k for k in range(len(xs))]
+    for first_flat in (True, False):
+        hist = [track_of(xs, flat=first_flat), track_of(xs, flat=not first_flat), track_of(xs, flat=False)]
+        n_cases += 1
+        try:
+            for t_ in hist:
+                fn['__name__']('filter_seq')(t_, [1.0, 2.0, 1.0])
+        except orders.Unsupported as ex:
+            raise shape_error('filter_seq not interpretable: %s' % ex, fs.loc())
+        except (ZeroDivisionError, IndexError, KeyError, TypeError, AttributeError, ValueError, orders.Raised) as ex:
+            found.setdefault('seq-fails', (fs, 'filter_seq does not fail', {'history': 'three calls with the default dimensions', 'exception': '%s: %s' % (type(ex).__name__, str(ex)[:160])}))
+            continue
+        win3 = [0.25, 0.5, 0.25]
+        for k_, t_ in enumerate(hist):
+            pts = t_.fields['_Track__POINTS']
+            zin = [0.0] * len(xs) if (k_ == 0) == first_flat and k_ < 2 else zs_
+            if k_ == 2:
+                zin = zs_
+            wz = [zin[i] if (i < 1 or i >= len(xs) - 1) else mean_window(zin, win3, i, True) for i in range(len(xs))]
+            wx = [xs[i] if (i < 1 or i >= len(xs) - 1) else mean_window(xs, win3, i, True) for i in range(len(xs))]
+            gz = [o.position.getZ() for o in pts]
+            gx = [o.position.getX() for o in pts]
+            if not (all(close(a, b) for a, b in zip(gz, wz)) and all(close(a, b) for a, b in zip(gx, wx))):
+                found.setdefault('seq-history', (fs, 'filter_seq with the default dimensions smooths x, y and z of the track it is given, whatever tracks were filtered before',
+                                                 {'history': ['flat track (constant z)' if (j == 0) == first_flat and j < 2 else 'track with varying z' for j in range(3)],
+                                                  'call': k_ + 1, 'kernel': [1.0, 2.0, 1.0], 'z': gz, 'expected z': wz, 'x': gx, 'expected x': wx}))
+                break
+    # the same signals held as numpy scalars (columns taken from numpy arrays): NaN samples are still left out of the mean
+    for kname, kind, tol in (('numpy.float64 scalar', npstub.NpF64, 1e-9), ('numpy.float32 scalar', npstub.NpF32, 1e-5)):
+        for sname in ('with isolated NaN', 'NaN first and last'):
+            xs_ = signals[sname]
+            n_cases += 1
+            t = track_of(xs_)
+            t.call('createAnalyticalFeature', 'c', [kind(v) for v in xs_])
+            try:
+                t.call('operate', fn['Operator'].FILTER, 'c', [1.0, 2.0, 1.0], 'b')
+                got = t.call('getAnalyticalFeature', 'b')
+            except orders.Unsupported as ex:
+                raise shape_error('Filter.execute not interpretable: %s' % ex, ff.loc())
+            except (ZeroDivisionError, IndexError, KeyError, TypeError, AttributeError, ValueError, orders.Raised) as ex:
+                found.setdefault('fails', (ff, 'filtering does not fail on a signal at least as long as the window', {'signal held as': kname, 'exception': '%s: %s' % (type(ex).__name__, str(ex)[:160])}))
+                continue
+            want = [xs_[i] if (i < 1 or i >= len(xs_) - 1) else mean_window(xs_, [0.25, 0.5, 0.25], i, True) for i in range(len(xs_))]
+            gotf = [float(v) if hasattr(v, '__float__') and not isinstance(v, (str, bool)) else v for v in got] if isinstance(got, list) else None
+            okk = gotf is not None and len(gotf) == len(want) and all((b != b and isinstance(a, float) and a != a) or (isinstance(a, float) and a == a and b == b and abs(a - b) <= tol * max(1.0, abs(b))) for a, b in zip(gotf, want))
+            if not okk:
+                found.setdefault('mean-np', (ff, 'every output is the weighted mean of the window samples that are inside the track and not NaN - also when the samples are numpy scalars',
+                                             {'signal': [None if v != v else v for v in xs_], 'signal held as': kname, 'kernel': [1.0, 2.0, 1.0],
+                                              'output': [None if (isinstance(v, float) and v != v) else v for v in gotf] if gotf is not None else repr(got)[:200], 'expected': [None if v != v else v for v in want]}))
     for key, (f, desc, wit) in sorted(found.items()):
         ctx.violation('C15.G', f, desc, wit, node=f.node, key=key)
-    if not any(k in found for k in ('fails', 'shape', 'input', 'mean', 'in-place', 'even')):
+    if not any(k in found for k in ('fails', 'shape', 'input', 'mean', 'mean-np', 'in-place', 'even')):
         ctx.ok('C15.G', ff, 'Filter: weighted mean over the valid samples of the window, boundary copy, input untouched (%d signal/kernel configurations)' % n_cases, node=ff.node)
     if not any(k in found for k in ('window', 'window-fails')):
         ctx.ok('C15.G', fk, 'sliding windows of %d built-in kernels: odd, symmetric, non-negative, sum 1' % len(kernels), node=fk.node)
-    if not any(k in found for k in ('seq', 'seq-fails')):
+    if not any(k in found for k in ('seq', 'seq-fails', 'seq-history')):
         ctx.ok('C15.G', fs, 'filter_seq writes the filtered coordinates into the track it is given', node=fs.node)
     ctx.extra['C15.G cases'] = n_cases
 
